@@ -48,7 +48,7 @@ Valid(x) ==
     /\ (x.mal = "none" => x.malpos = Min1(MalPoss))
     /\ (x.finpos = "last" => x.fin # "none" /\ Len(x.shape) > 0)
     /\ (x.fin = "none" => x.finpos = "own")
-    /\ (x.usage = "fin" => x.fin # "none")
+    /\ (x.usage \in {"fin", "running"} => x.fin # "none")
     /\ (~HasU(x.shape) => x.hdr = "sep")
     /\ (x.cls = "big" => Len(x.shape) <= 2 /\ x.nf = 1)
     /\ (x.cls = "empty" => x.nf = 1)
